@@ -195,21 +195,32 @@ static Point parsePoint(const std::string& s) {
     return p;
 }
 static Frame makeFrame(const std::string& pts, const std::string& subs) {
+    // Two equivalent ways of building the same caller-side frame, chosen deterministically from the arguments: appending
+    // (push_back), or placing the elements by index from the last to the first (resize + assignment, then replacement).
+    // The model knows one frame value; a difference between the two paths shows as a disagreement.
+    const bool byIdx = ((pts.size() * 7 + subs.size()) % 3) == 0;
     Points P; Analogs A;
     std::vector<std::string> pl = splitList(pts, ';');
-    for (size_t i = 0; i < pl.size(); ++i) P.point(parsePoint(pl[i]));
+    if (!byIdx) for (size_t i = 0; i < pl.size(); ++i) P.point(parsePoint(pl[i]));
+    else for (size_t i = pl.size(); i-- > 0; ) P.point(parsePoint(pl[i]), i);
     std::vector<std::string> sl = splitList(subs, '|');
+    std::vector<SubFrame> sfs;
     for (size_t k = 0; k < sl.size(); ++k) {
         SubFrame sf;
         if (sl[k] != "e") {
             std::vector<std::string> cl = split(sl[k], ';');
+            std::vector<Channel> cs;
             for (size_t i = 0; i < cl.size(); ++i) {
                 std::vector<std::string> t = split(cl[i], ':');
-                Channel c; c.name(unx(t[0])); c.data(unhex8(t[1])); sf.channel(c);
+                Channel c; c.name(unx(t[0])); c.data(unhex8(t[1])); cs.push_back(c);
             }
+            if (!byIdx) for (size_t i = 0; i < cs.size(); ++i) sf.channel(cs[i]);
+            else for (size_t i = cs.size(); i-- > 0; ) sf.channel(cs[i], i);
         }
-        A.subframe(sf);
+        sfs.push_back(sf);
     }
+    if (!byIdx) for (size_t k = 0; k < sfs.size(); ++k) A.subframe(sfs[k]);
+    else for (size_t k = sfs.size(); k-- > 0; ) A.subframe(sfs[k], k);
     Frame f; f.add(P, A);
     return f;
 }
@@ -218,9 +229,10 @@ static bool setParam(Parameter& p, const std::string& type, const std::string& d
     std::vector<size_t> d; { std::vector<std::string> dl = splitList(dims, ','); for (size_t i = 0; i < dl.size(); ++i) d.push_back((size_t)std::strtoull(dl[i].c_str(), nullptr, 10)); }
     std::vector<std::string> vl = splitList(vals, ',');
     outcome = classify([&]() {
-        if (type == "I") { std::vector<int> v; for (size_t i = 0; i < vl.size(); ++i) v.push_back((int)std::strtol(vl[i].c_str(), nullptr, 10)); p.set(v, d); }
-        else if (type == "F") { std::vector<float> v; for (size_t i = 0; i < vl.size(); ++i) v.push_back(unhex8(vl[i])); p.set(v, d); }
-        else if (type == "C") { std::vector<std::string> v; for (size_t i = 0; i < vl.size(); ++i) v.push_back(unx(vl[i])); p.set(v, d); }
+        if (type == "I") { std::vector<int> v; for (size_t i = 0; i < vl.size(); ++i) v.push_back((int)std::strtol(vl[i].c_str(), nullptr, 10)); if (v.size() == 1 && d.empty()) p.set(v[0]); else p.set(v, d); }
+        // a single value without explicit dimensions goes through the scalar overloads set(int) / set(float) / set(string)
+        else if (type == "F") { std::vector<float> v; for (size_t i = 0; i < vl.size(); ++i) v.push_back(unhex8(vl[i])); if (v.size() == 1 && d.empty()) p.set(v[0]); else p.set(v, d); }
+        else if (type == "C") { std::vector<std::string> v; for (size_t i = 0; i < vl.size(); ++i) v.push_back(unx(vl[i])); if (v.size() == 1 && d.empty()) p.set(v[0]); else p.set(v, d); }
     });
     return outcome == "ok";
 }
@@ -293,10 +305,15 @@ static int runScript(const char* scriptPath, const char* outPath, int tid) {
             std::fprintf(out, "R %s\n", res.c_str()); std::fflush(out); continue;
         }
         else if (op == "param") {
-            Parameter p(unx(t[2]), unx(t[3]));
+            // two equivalent ways of preparing the same parameter (constructor arguments / the name and description setters,
+            // lock() alone / lock-unlock-lock), chosen deterministically from the arguments
+            const bool viaSetters = (t[2].size() + t[3].size()) % 2 == 1;
+            Parameter p = viaSetters ? Parameter() : Parameter(unx(t[2]), unx(t[3]));
+            if (viaSetters) { p.name(unx(t[2])); p.description(unx(t[3])); }
             std::string sres = "ok";
             if (t[5] != "N" && !setParam(p, t[5], t[6], t[7], sres)) { std::fprintf(out, "R set %s\n", sres.c_str()); continue; }
-            if (t[4] == "1") p.lock();
+            if (t[4] == "1") { p.lock(); if (viaSetters) { p.unlock(); p.lock(); } }
+            else if (viaSetters) { p.lock(); p.unlock(); }
             res = classify([&]() { cur->parameter(unx(t[1]), p); });
         }
         else if (op == "paramself") {   // paramself <group> <param> <dstgroup>: hand a STORED parameter of the same object back to it
@@ -381,6 +398,12 @@ static int runScript(const char* scriptPath, const char* outPath, int tid) {
             else if (k == "chan") fn = [&]() { const Channel& ch = c.data().frame(N(2)).analogs().subframe(N(3)).channel(N(4)); return xhex(ch.name()) + "=" + hex8(ch.data()); };
             else if (k == "chann") fn = [&]() { const Channel& ch = c.data().frame(N(2)).analogs().subframe(N(3)).channel(unx(t[4])); return xhex(ch.name()) + "=" + hex8(ch.data()); };
             else if (k == "chanidx") fn = [&]() { return std::to_string(c.data().frame(N(2)).analogs().subframe(N(3)).channelIdx(unx(t[4]))); };
+            // the non-const accessors (reached through the const-qualified points_nonConst()/analogs_nonConst()): same contract
+            else if (k == "ncpoint") fn = [&]() { return pointStr(c.data().frame(N(2)).points_nonConst().point_nonConst(N(3))); };
+            else if (k == "ncpointn") fn = [&]() { return pointStr(c.data().frame(N(2)).points_nonConst().point_nonConst(unx(t[3]))); };
+            else if (k == "ncsub") fn = [&]() { return std::to_string(c.data().frame(N(2)).analogs_nonConst().subframe_nonConst(N(3)).nbChannels()); };
+            else if (k == "ncchan") fn = [&]() { const Channel& ch = c.data().frame(N(2)).analogs_nonConst().subframe_nonConst(N(3)).channel_nonConst(N(4)); return xhex(ch.name()) + "=" + hex8(ch.data()); };
+            else if (k == "ncchann") fn = [&]() { const Channel& ch = c.data().frame(N(2)).analogs_nonConst().subframe_nonConst(N(3)).channel_nonConst(unx(t[4])); return xhex(ch.name()) + "=" + hex8(ch.data()); };
             else if (k == "group") fn = [&]() { const Group& g = c.parameters().group(N(2)); return xhex(g.name()) + " " + std::to_string(g.nbParameters()); };
             else if (k == "groupn") fn = [&]() { const Group& g = c.parameters().group(unx(t[2])); return xhex(g.name()) + " " + std::to_string(g.nbParameters()); };
             else if (k == "groupidx") fn = [&]() { return std::to_string(c.parameters().groupIdx(unx(t[2]))); };
